@@ -36,6 +36,10 @@ def failures(sc):
     node = doc[0] if isinstance(doc, list) else doc
     node["@id"] = 7
     fs.append({"id": "input:data_jsonld_rejected", "kind": "input", "data": json.dumps(doc), "has_data": True})
+    # a remote @context that cannot be fetched (a file URL that does not exist: the document loader fails at once, without any network)
+    fs.append({"id": "input:data_remote_context", "kind": "input", "has_data": True,
+               "data": json.dumps({"@context": "file:///sim-nonexistent/context.jsonld", "@id": "http://sim.example/r1", "@type": "http://a.ml/vocabularies/apiContract#WebAPI"})})
+    fs.append({"id": "input:eval_conflict_toplevel", "kind": "input", "profile": rd(os.path.join(c11, "eval_conflict_toplevel.yaml"))})
     for site in sc.census.get("fail_sites") or []:
         if "test_utils" in site:
             continue
